@@ -427,8 +427,14 @@ namespace BitSerializer::Convert::Detail
 	static void To(const std::chrono::time_point<TClock, TDuration>& in, std::basic_string<TSym, std::char_traits<TSym>, TAllocator>& out)
 	{
 		using TDays = std::chrono::duration<typename TDuration::rep, std::ratio<86400>>;
-		const auto datePart = std::chrono::floor<TDays>(in);
-		const auto timePart = in - datePart;
+		// Split with truncation and then adjust (flooring before subtraction can overflow when time is close to minimum of the range)
+		auto datePart = std::chrono::time_point_cast<TDays>(in);
+		auto timePart = in - datePart;
+		if (timePart.count() < 0)
+		{
+			datePart -= TDays(1);
+			timePart += TDays(1);
+		}
 		auto timeInSec = std::chrono::floor<std::chrono::seconds>(timePart).count();
 		auto days = datePart.time_since_epoch().count();
 
